@@ -29,6 +29,12 @@ class Program:
             self.bodies[b["id"]] = Body(self, b)
         self.adts = {a["path"]: a for a in facts["adts"]}
         self.consts = {c["path"]: c for c in facts["consts"]}
+        try:
+            import sql as _sql
+            _sql.STATICS.clear()
+            _sql.STATICS.update({p: c["v"] for p, c in self.consts.items() if p.startswith("static:")})
+        except ImportError:
+            pass
         self.impls = facts["impls"]
         self._callers = None
         self._children = defaultdict(list)
